@@ -17,6 +17,7 @@ CLASSES = [
     ('exc', r'escaped-exception'),
     ('hang', r'hang'),
     ('intovf', r'ubsan:signed integer overflow.*'),
+    ('ptrovf', r'ubsan:(addition|subtraction) of unsigned offset.*'),
 ]
 have = {e['id'] for e in kf['open']}
 for e in summ:
@@ -32,12 +33,14 @@ for e in summ:
         cls = ('other', re.escape(kind))
     m = re.search(r'`(.*)`', e['desc'], re.S)
     probe = m.group(1) if m else None
+    if prop != 'C09':
+        probe = None
     if kind.startswith('escaped-exception'):
         fn = parts[1]; sig = r'escaped-exception\|%s\|.*' % re.escape(fn)
     elif kind.startswith('hang'):
         fn = parts[1]; sig = r'hang\|%s' % re.escape(fn)
     else:
-        fn = parts[1]; sig = r'%s\|%s\|%s' % (cls[1], re.escape(fn), re.escape(parts[2]))
+        fn = parts[1]; sig = r'%s\|%s\|%s(\|.*)?' % (cls[1], re.escape(fn), re.escape(parts[2]))
     fid = '%s-%s-%s' % (prop.lower(), re.sub(r'[^a-z0-9_]+', '_', fn.lower())[:40], cls[0])
     if fid in have:
         for x in kf['open']:
@@ -45,7 +48,7 @@ for e in summ:
                 x['signatures'].append(sig)
         continue
     have.add(fid)
-    ent = {'property': prop, 'id': fid, 'status': 'open', 'what': '%s in %s (%s) on `%s`' % (cls[0], fn, parts[2] if len(parts) > 2 else '', probe), 'signatures': [sig]}
+    ent = {'property': prop, 'id': fid, 'status': 'open', 'what': '%s in %s (%s): %s' % (cls[0], fn, parts[2] if len(parts) > 2 else '', (('on `%s`' % probe) if probe else e['desc'][-160:])), 'signatures': [sig]}
     if probe and 'after' not in e['desc'].split('`')[-1]:
         ent['probe'] = probe
     kf['open'].append(ent)
